@@ -3,6 +3,9 @@
  * job lines:
  *   file <blob>                   state: the complete new file B
  *   case mark=<+|0|! per chunk> limit=<n> [noscan=1] [feed=0] [fsrc=<blob>]
+ *        pmark=<+|0 per chunk>: the context first sees the target in marking pmark (scan, reset, one missing-range request
+ *        whose result is dropped), then the file is rewritten to marking mark, scanned and reset again - the judged
+ *        request is the second one on the same context
  *        '!' = failed: after scan and reset, zck_copy_chunks from the source fsrc (written by the reference writer: it
  *        lists exactly the '!' chunks with their digests and sizes, but holds other bytes), which leaves them failed
  * flow per case (public API only): the target gets B's header and exactly the chunks marked '+' (zeros elsewhere);
@@ -14,7 +17,7 @@
  */
 #include "drv.h"
 
-typedef struct { blob *file; char *mark; int limit, noscan, feed; blob fsrc; } gcase;
+typedef struct { blob *file; char *mark; int limit, noscan, feed; blob fsrc; char *pmark; } gcase;
 typedef struct { gcase *cases; int n; } gctx;
 
 static void run_one(int idx, FILE *out, void *vctx) {
@@ -33,14 +36,31 @@ static void run_one(int idx, FILE *out, void *vctx) {
         if(k->mark[nch] == '+')
             memcpy(tgt.p + zck_get_chunk_start(ch), k->file->p + zck_get_chunk_start(ch), zck_get_chunk_comp_size(ch));
     }
+    blob pre = {0};
+    if(k->pmark) {
+        pre = blob_new(k->file->n);
+        memcpy(pre.p, k->file->p, hl);
+        int i = 0;
+        for(zckChunk *ch = zck_get_first_chunk(b); ch; ch = zck_get_next_chunk(ch), i++)
+            if(k->pmark[i] == '+')
+                memcpy(pre.p + zck_get_chunk_start(ch), k->file->p + zck_get_chunk_start(ch), zck_get_chunk_comp_size(ch));
+    }
     zck_free(&b);
     real_close(bfd);
-    int fd = tmp_file_with("rt", tgt.p, tgt.n);
+    int fd = tmp_file_with("rt", k->pmark ? pre.p : tgt.p, tgt.n);
     zckCtx *zck = zck_create();
     int op = zck_init_read(zck, fd);
     fprintf(out, "G %d open=%d", idx, op);
     if(!op) { fputc('\n', out); return; }
     int scan = 9;
+    if(k->pmark) {
+        zck_find_valid_chunks(zck);
+        zck_reset_failed_chunks(zck);
+        zckRange *r0 = zck_get_missing_range(zck, k->limit);
+        if(r0) { char *s0 = zck_get_range_char(zck, r0); free(s0); zck_range_free(&r0); }
+        if(pwrite(fd, tgt.p, tgt.n, 0) != (ssize_t)tgt.n) die("ranges: rewrite");
+        blob_free(&pre);
+    }
     if(!k->noscan) {
         scan = zck_find_valid_chunks(zck);
         zck_reset_failed_chunks(zck);
@@ -129,7 +149,7 @@ int cmd_ranges(FILE *job, FILE *out) {
         else if(!strcmp(t[0], "case")) {
             if(!file) die("ranges: case before file");
             if(c.n >= cap) { cap = cap ? cap * 2 : 1024; c.cases = realloc(c.cases, cap * sizeof *c.cases); }
-            gcase k = {file, strdup(kv(t, n, "mark", "")), (int)kvi(t, n, "limit", -1), (int)kvi(t, n, "noscan", 0), (int)kvi(t, n, "feed", 1), blob_arg(kv(t, n, "fsrc", "-"))};
+            gcase k = {file, strdup(kv(t, n, "mark", "")), (int)kvi(t, n, "limit", -1), (int)kvi(t, n, "noscan", 0), (int)kvi(t, n, "feed", 1), blob_arg(kv(t, n, "fsrc", "-")), kv(t, n, "pmark", NULL) ? strdup(kv(t, n, "pmark", "")) : NULL};
             c.cases[c.n++] = k;
         } else die("ranges: bad line %s", t[0]);
         free(t);
